@@ -6,6 +6,7 @@ invocations (push N / push <name> / push -a, thread counts 1/2/4) in ONE directo
 same way) must leave every byte as it is.  The single-invocation result is also compared with the L3
 model, and the split is replayed on the model by feeding its own output tree back in."""
 import copy
+import os
 
 from props import common, l3common, l3gen, ws
 
@@ -115,6 +116,19 @@ def nonl_midfile(w):
     return False
 
 
+def dir_file_conflict(ctx, w):
+    """known finding dir-and-file: the series and the tree use one path both as a directory and as a file (some
+    name is a proper path prefix of another)"""
+    from props.C15 import named_files
+    names = set(named_files(ctx, w)) | {os.path.normpath(k) for k in w["files"]}
+    names = {n for n in names if n not in (b".", b"")}
+    for a in names:
+        for c in names:
+            if c != a and c.startswith(a + b"/"):
+                return True
+    return False
+
+
 def corpus():
     base = l3gen.default_cfg()
     w = {"files": {b"f": (b"a\nb\n", 0o644)}, "dirs": [], "applied": None, "series": b"p1.patch\np2.patch\n",
@@ -125,7 +139,13 @@ def corpus():
           "dirs": [], "applied": None, "series": b"p1.patch\np2.patch\n",
           "patches": {b"p1.patch": b"--- a/f.txt\n+++ b/f.txt\n@@ -7,3 +7,3 @@\n uniq-a\n-uniq-b\n+UNIQ-B\n uniq-c\n",
                       b"p2.patch": b"--- a/f.txt\n+++ b/f.txt\n@@ -2,3 +2,3 @@\n blk\n-item\n+ITEM\n end\n"}}
-    return [(w, dict(base), [(("C", 1), 1), (("A",), 1)]), (w2, dict(base), [(("C", 1), 1), (("A",), 1)])]
+    # known finding dir-and-file: p1 empties the directory d, p2 creates a FILE named d.  One push still sees the
+    # directory on disk when it loads "d" (error, nothing written); after `push 1` the empty directory is gone
+    w3 = {"files": {b"d/f": (b"x\n", 0o644), b"g": (b"keep\n", 0o644)}, "dirs": [], "applied": None, "series": b"p1.patch\np2.patch\n",
+          "patches": {b"p1.patch": b"--- a/d/f\n+++ /dev/null\n@@ -1 +0,0 @@\n-x\n",
+                      b"p2.patch": b"--- /dev/null\n+++ b/d\n@@ -0,0 +1 @@\n+now a file\n"}}
+    return [(w, dict(base), [(("C", 1), 1), (("A",), 1)]), (w2, dict(base), [(("C", 1), 1), (("A",), 1)]),
+            (w3, dict(base), [(("C", 1), 1), (("A",), 1)])]
 
 
 def run(ctx):
@@ -172,6 +192,15 @@ def run(ctx):
             ctx.known_finding("no-newline-midfile: a hunk that marks a line as lacking its newline although further lines of the same side "
                               "follow leaves that line in the middle of the in-memory file; a later invocation loads the saved file with the "
                               "two lines joined, so one push and split pushes differ")
+            probs = []
+        if dir_file_conflict(ctx, w):
+            # a single push that ends with a load error is "not compared" above; what the known finding is about is
+            # exactly that the split succeeds where the single push stops with "Is a directory" / "Not a directory"
+            multi = run_steps(ctx.binary, w, cfg, steps)
+            if l3common.exit_of(single) != l3common.exit_of(multi[-1]) or no_backups(single) != no_backups(multi[-1]):
+                ctx.known_finding("dir-and-file: the series uses one path both as a directory and as a file (a patch empties a directory and a "
+                                  "later one creates a file of that name, or the other way round); one push decides by the directory tree on "
+                                  "disk and stops with a load error, split pushes see the tree after the earlier patches and go on")
             probs = []
         if probs:
             bad += 1
